@@ -392,6 +392,15 @@ func (x *Exec) unop(st *State, ins *ssa.UnOp) SVal {
 	v := x.val(st, ins.X)
 	switch ins.Op {
 	case token.MUL: // load
+		if v.K == KU && v.T != "nil" {
+			// a pointer the function does not own (an element of a []*T queue): its target is an uninterpreted function of
+			// the pointer. Sound while nothing stores through untracked pointers (such stores are reported as unsupported);
+			// a nil dereference is not checked here.
+			if _, isPtr := ins.X.Type().Underlying().(*types.Pointer); isPtr {
+				t := x.D.app("deref!"+typeShort(ins.Type()), []string{v.T}, []string{"U"}, sortOf(ins.Type()))
+				return x.unbox(st, t, ins.Type())
+			}
+		}
 		if v.K != KLoc {
 			x.unsupp(st, "load through untracked pointer %s in %s at %s", ins.X.Name(), funcKey(ins.Parent()), x.pos(ins.Pos()))
 			return mkU("nil")
